@@ -11,7 +11,7 @@ from fractions import Fraction
 
 from harness import gwl
 
-WL_OPS = {"aspirate", "dispense", "transfer", "distribute", "comment", "wash", "decon", "flush", "commit", "set_diti"}
+WL_OPS = {"aspirate", "dispense", "transfer", "distribute", "comment", "wash", "decon", "flush", "commit", "set_diti", "set_max"}
 TOL = Fraction(1, 1 << 30)
 
 
@@ -54,6 +54,16 @@ def dev_pos(dev, spec, w):
     if spec["kind"] == "trough" and dev == "fluent":
         return 1 + c
     return 1 + c * spec_rows(spec) + r
+
+
+
+def mv_before(case, i):
+    """the worklist's max_volume in force when call i runs (the attribute may be re-assigned between calls: op set_max)"""
+    mv = Fraction(case["wl"]["max_volume"])
+    for op in case["ops"][:i]:
+        if op["op"] == "set_max":
+            mv = Fraction(op["v"])
+    return mv
 
 
 def num(x):
@@ -171,6 +181,24 @@ def oracle_C02(case, obs):
                 over = any(want[k][j] > Fraction(L[k]["max"]) or want[k][j] < 0 for k in range(len(L)) for j in range(len(want[k])))
                 if any(vols_of(st, k) != want[k] for k in range(len(L))) and over:
                     bad.append(f"swallowed: call {i} ({op['op']}) returned normally although the requested volumes violate a limit (no volume violation was raised)")
+        # a distribute that the source cannot serve / a destination cannot take raises the volume-violation error
+        if op["op"] == "distribute" and case["dev"] != "base" and lw_args_ok(case, op):
+            ev = expected_events(case, op)
+            vd = num(op["volume"])
+            if ev is not None and vd is not None and 0 <= vd <= mv_before(case, i) and op["src"] != op["dst"]:
+                cur = {k: [Fraction(v) for v in prev_lw(obs, i)[k]["vols"]] for k in (op["src"], op["dst"])}
+                want_exc = None
+                for (k, j, dv) in ev:
+                    nv = cur[k][j] + dv
+                    if dv < 0 and nv < Fraction(L[k]["min"]):
+                        want_exc = "VolumeUnderflowError"
+                        break
+                    if dv >= 0 and k == op["dst"] and nv > Fraction(L[k]["max"]):
+                        want_exc = "VolumeOverflowError"
+                        break
+                    cur[k][j] = nv
+                if want_exc and st["exc"] != want_exc:
+                    bad.append(f"error-class: call {i} (distribute) violates a limit but raised {st['exc']} instead of {want_exc}")
         # exact limit behaviour of the direct and single-step operations
         if op["op"] in ("add", "remove", "aspirate", "dispense"):
             ev = expected_events(case, op)
@@ -213,6 +241,21 @@ def oracle_C04(case, obs):
     bad = []
     L = case["labware"]
     for i, (op, st) in enumerate(zip(case["ops"], obs["steps"])):
+        if op["op"] in ("evo_asp", "evo_disp") and st["exc"] is None and not nonfinite(st):
+            # an accepted script command books each given volume on the well it was given for
+            ws = flatF(op["wells"])
+            vol = op["volume"]
+            vs = [num(vol["v"])] * len(ws) if vol["t"] == "scalar" else [num(v) for v in vol["v"]]
+            if len(vs) == len(ws) and all(v is not None for v in vs) and all(valid_well(L[op["lw"]], w) for w in ws):
+                sign = -1 if op["op"] == "evo_asp" else 1
+                want = [Fraction(v) for v in prev_lw(obs, i)[op["lw"]]["vols"]]
+                for w, v in zip(ws, vs):
+                    want[real_index(L[op["lw"]], w)] += sign * v
+                got = vols_of(st, op["lw"])
+                if got != want:
+                    j = [x for x in range(len(got)) if got[x] != want[x]][0]
+                    bad.append(f"ledger: after call {i} ({op['op']}) well {j} of {L[op['lw']]['name']} holds {got[j]} instead of {want[j]}")
+            continue
         if op["op"] not in ("add", "remove", "aspirate", "dispense", "transfer", "distribute"):
             # no other call may change any volume
             for k in range(len(L)):
@@ -570,6 +613,7 @@ def oracle_C06(case, obs):
     L = case["labware"]
     mv = Fraction(case["wl"]["max_volume"])
     for i, (op, st) in enumerate(zip(case["ops"], obs["steps"])):
+        mv = mv_before(case, i)
         k = op["op"]
         if k == "transfer":
             tr = triples_of(op)
@@ -641,6 +685,7 @@ def oracle_C07(case, obs):
     L = case["labware"]
     mv = Fraction(case["wl"]["max_volume"])
     for i, (op, st) in enumerate(zip(case["ops"], obs["steps"])):
+        mv = mv_before(case, i)
         if op["op"] != "transfer" or case["dev"] == "base":
             continue
         tr = triples_of(op)
@@ -928,6 +973,7 @@ def oracle_C03(case, obs):
     except gwl.GwlError:
         return []
     for i, (op, st) in enumerate(zip(case["ops"], obs["steps"])):
+        mv = mv_before(case, i)
         k = op["op"]
         if nonfinite(st):
             break
@@ -938,6 +984,14 @@ def oracle_C03(case, obs):
                 v = Fraction(r.split(";")[6])
                 if v > mv + Fraction(1, 200):
                     bad.append(f"oversized: call {i} ({k}) emitted a pipetting step of {v} above max_volume {mv}")
+            if r.startswith("R;"):
+                f = r.split(";")
+                try:
+                    rv, rm = Fraction(f[11]), int(f[14])
+                except (ValueError, IndexError):
+                    rv, rm = None, None
+                if rv is not None and (rv > mv or rm * rv > mv):
+                    bad.append(f"oversized: call {i} ({k}) emitted a reagent distribution that aspirates {rm} x {rv} at once, above max_volume {mv}")
             if is_script(r):
                 d = decode_cmd(r)
                 if d is not None and any(v > mv + Fraction(1, 200) for v in d["vols"]):
@@ -1016,6 +1070,7 @@ def oracle_C09(case, obs):
     diti = case["wl"]["diti_mode"]
     all_recs = []
     for i, (op, st) in enumerate(zip(case["ops"], obs["steps"])):
+        mv = mv_before(case, i)
         k = op["op"]
         recs = st["recs"]
         before = list(all_recs)
@@ -1089,7 +1144,7 @@ def oracle_C09(case, obs):
                 if op.get(f, 1) < 0:
                     reasons.append(f)  # not a number a worklist line can carry
             ex = op.get("exclude") or []
-            if not reasons and any(not (op["dst_start"] <= x <= op["dst_end"]) for x in ex):
+            if not reasons and any(isinstance(x, dict) or not (op["dst_start"] <= x <= op["dst_end"]) for x in ex):
                 reasons.append("excluded well")
             for f, lim in (("src_label", True), ("dst_label", True), ("src_rack_id", True), ("src_rack_type", True), ("dst_rack_id", True), ("dst_rack_type", True), ("liquid_class", False)):
                 if text_bad(op.get(f, ""), lim):
@@ -1427,4 +1482,4 @@ def oracle_C08(case, obs):
 ORACLES = {"C08": oracle_C08, "C01": oracle_C01, "C02": oracle_C02, "C03": oracle_C03, "C04": oracle_C04, "C05": oracle_C05,
            "C06": oracle_C06, "C07": oracle_C07, "C09": oracle_C09, "C10": oracle_C10, "C11": oracle_C11}
 ORACLES_PARAMS = {"C09": oracle_C09, "C10": oracle_C10, "C06": oracle_C06}
-ORACLES_EVOCMD = {"C13": oracle_C13, "C10": oracle_C10, "C02": oracle_C02, "C03": oracle_C03}
+ORACLES_EVOCMD = {"C13": oracle_C13, "C10": oracle_C10, "C02": oracle_C02, "C03": oracle_C03, "C04": oracle_C04}
